@@ -10,8 +10,22 @@ import (
 )
 
 func TestGeneratedUnitsParse(t *testing.T) {
+	unitsParse(t, func(rt *rapid.T) Opts {
+		return Opts{Layout: true, Bodies: true, MultiByte: true, Interfaces: true, ExtraImps: true, Wide: true, Anon: true, RichDecl: true, NameReuse: rapid.Bool().Draw(rt, "reuse")}
+	})
+}
+
+// the options added for the widened C01 / C02 / C05 generators
+func TestGeneratedUnitsParseWidened(t *testing.T) {
+	unitsParse(t, func(rt *rapid.T) Opts {
+		return Opts{Layout: true, Bodies: true, MultiByte: true, Interfaces: true, Wide: true, Anon: true, RichDecl: true, ScopedReuse: rapid.Bool().Draw(rt, "reuse"),
+			WordNames: true, WordDirs: true, ModuleLayout: true, Loops: true, SharedMethodNames: true, WildcardProjectImports: true, SuperCallsDeclared: true}
+	})
+}
+
+func unitsParse(t *testing.T, opts func(rt *rapid.T) Opts) {
 	rapid.Check(t, func(rt *rapid.T) {
-		p := GenProject(rt, Opts{Layout: true, Bodies: true, MultiByte: true, Interfaces: true, ExtraImps: true, Wide: true, Anon: true, RichDecl: true, NameReuse: rapid.Bool().Draw(rt, "reuse")})
+		p := GenProject(rt, opts(rt))
 		for i, u := range p.Units {
 			text := p.Files[i].Text
 			if errs := SyntaxErrors(text); len(errs) > 0 {
